@@ -19,6 +19,7 @@ Statement of the property, clause by clause:
                              part is checked by the harness
 -/
 import OccaProofs.Lemmas.CacheKey
+import OccaProofs.Lemmas.JsonDump
 
 namespace Occa.CacheKey.C06
 open Occa.CacheKeyBase Occa.CacheKey
@@ -45,18 +46,38 @@ theorem C06_fields_cover : (∀ n ∈ namedProps, n ∈ hashedNames) ∧ hasPart
 
 /-- The key determines every hashed input: with collision-free parameters, equal kernel keys
     imply equal source text and equal values of all hashed properties. -/
-theorem C06_key_determines_inputs (e : Env κ σ) (hi : e.Inj) (c₁ c₂ : Config)
+theorem C06_key_determines_inputs (e : Env κ σ) (hi : e.Inj (fun _ => True)) (c₁ c₂ : Config)
     (h : baseKey e c₁ = baseKey e c₂) : c₁.view = c₂.view :=
-  view_eq_of_baseKey_eq e hi shape h
+  view_eq_of_baseKey_eq e hi shape (Config.ok_all _ _) (Config.ok_all _ _) h
 
 /-- "Two builds share a cached binary only if their effective build inputs are identical":
     for every hash function etc. without collisions, equal keys imply equal effective inputs
     (source text and the eleven named properties). -/
-theorem C06_injective (e : Env κ σ) (hi : e.Inj) (c₁ c₂ : Config)
+theorem C06_injective (e : Env κ σ) (hi : e.Inj (fun _ => True)) (c₁ c₂ : Config)
     (h : baseKey e c₁ = baseKey e c₂) : c₁.effective = c₂.effective := by
   unfold Config.effective
-  rw [src_eq_of_baseKey_eq e hi shape h]
-  rw [List.map_congr_left (fun n hn => get_eq_of_baseKey_eq e hi shape h n (C06_fields_cover.1 n hn))]
+  rw [src_eq_of_baseKey_eq e hi shape (Config.ok_all _ _) (Config.ok_all _ _) h]
+  rw [List.map_congr_left (fun n hn =>
+    get_eq_of_baseKey_eq e hi shape (Config.ok_all _ _) (Config.ok_all _ _) h n (C06_fields_cover.1 n hn))]
+
+/-- The same with the JSON encoder instantiated by the MODEL of json::dumpToString: its
+    injectivity is not assumed but proved (Lemmas/JsonDump.lean, `dump_injective`) for
+    well-formed values — no uninitialised json inside a value, number/boolean tokens are words
+    over letters, digits and `+ - .`, object keys contain no `"` (the dump does not escape
+    keys).  What remains assumed: no collisions of the hash function, of the text embedding and
+    of the hash renderings, which must be well-formed JSON values (they are JSON strings). -/
+theorem C06_injective_dump (e : Env κ String) (henc : e.enc = dump)
+    (hH : Function.Injective e.H) (hraw : Function.Injective e.raw)
+    (hfull : Function.Injective e.full) (htweak : Function.Injective e.tweak)
+    (hfw : ∀ k, (e.full k).WF) (c₁ c₂ : Config) (w₁ : c₁.WF) (w₂ : c₂.WF)
+    (h : baseKey e c₁ = baseKey e c₂) : c₁.effective = c₂.effective := by
+  have hi : e.Inj J.WFtop :=
+    ⟨hH, fun a b wa wb hab => dump_injective a b wa wb (by rw [henc] at hab; exact hab), hraw, hfull, htweak⟩
+  have o₁ := ok_of_wf e shape hfw c₁ w₁
+  have o₂ := ok_of_wf e shape hfw c₂ w₂
+  unfold Config.effective
+  rw [src_eq_of_baseKey_eq e hi shape o₁ o₂ h]
+  rw [List.map_congr_left (fun n hn => get_eq_of_baseKey_eq e hi shape o₁ o₂ h n (C06_fields_cover.1 n hn))]
 
 /-- The same without idealisation: for EVERY hash function, encoder and rendering, a key shared
     by two configurations with different effective inputs yields a collision of one of them —
@@ -70,7 +91,7 @@ theorem C06_collision_reduces (e : Env κ σ) (c₁ c₂ : Config)
   constructor
   · intro x y hxy
     exact Classical.byContradiction fun hn => hno (.hash x y hn hxy)
-  · intro x y hxy
+  · intro x y _ _ hxy
     exact Classical.byContradiction fun hn => hno (.enc x y hn hxy)
   · intro x y hxy
     exact Classical.byContradiction fun hn => hno (.raw x y hn hxy)
@@ -99,8 +120,22 @@ def freeEnv : Env J J where
   tweak := id
   dev := J.null
 
-example : (freeEnv).Inj :=
-  ⟨fun _ _ h => h, fun _ _ h => h, fun _ _ h => J.str.inj h, fun _ _ h => h, fun _ _ h => h⟩
+example : (freeEnv).Inj (fun _ => True) :=
+  ⟨fun _ _ h => h, fun _ _ _ _ h => h, fun _ _ h => J.str.inj h, fun _ _ h => h, fun _ _ h => h⟩
+
+/-- an instance for C06_injective_dump: the real dump model as encoder, keys rendered as JSON strings -/
+def dumpEnv : Env String String where
+  H := id
+  enc := dump
+  raw := id
+  full := J.str
+  short := J.str
+  tweak := id
+  dev := ""
+
+example : dumpEnv.enc = dump ∧ Function.Injective dumpEnv.H ∧ Function.Injective dumpEnv.full ∧
+    (∀ k, (dumpEnv.full k).WF) :=
+  ⟨rfl, fun _ _ h => h, fun _ _ h => J.str.inj h, fun _ => trivial⟩
 
 def cfgA : Config := { props := [("compiler_flags", .str "-O1"), ("compiler_linker_flags", .str "-g")], src := "s" }
 def cfgB : Config := { props := [("compiler_flags", .str "-g"), ("compiler_linker_flags", .str "-O1")], src := "s" }
